@@ -218,7 +218,8 @@ func (n *node) readdir() ([]fuse.DirEntry, syscall.Errno) {
 
 		// We don't want to show whiteouts.
 		if strings.HasPrefix(name, whiteoutPrefix) {
-			if name == whiteoutOpaqueDir {
+			if name == whiteoutOpaqueDir || name == whiteoutPrefix {
+				// ".wh." alone would be a whiteout of the empty name: not a name, never list it
 				return true
 			}
 			// Add the overlayfs-compiant whiteout later.
